@@ -19,6 +19,29 @@ EXPLANATION = (
 P = "util::metadata::header_metadata::HeaderMetadataSpec::"
 
 
+def check_header_cas(ctx, F, rule):
+    """The sub-byte compare_exchange is ONE byte-wide atomic compare-exchange whose expected/new bytes are the freshly
+    loaded byte with the old/new field value spliced in (a separate check followed by an update is not a compare-exchange)."""
+    f = F.fn(P + "compare_exchange")
+    allf = fn_and_closures(F, f)
+    sub = [c for g in allf for c in live_calls(g) if c.q == "util::address::Address::compare_exchange" and any("u8" in x for x in c.ga)]
+    upd = [c for g in allf for c in live_calls(g) if c.name in ("fetch_update", "store", "atomic_store", "fetch_and", "fetch_or") and c.q and ("MetadataValue" in c.q or "Address" in c.q)
+           and (g is not f or guard_find(f, c.bb, r"num_of_bits Lt 8", True))]
+    ok = len(sub) == 1 and not upd and bool(guard_find(f, sub[0].bb, r"num_of_bits Lt 8", True))
+    ctx.judge(ok, rule, "HeaderMetadataSpec::compare_exchange (sub-byte) is a single atomic byte compare-exchange", expected="one Address::compare_exchange::<AtomicU8>, no separate update on that path",
+              found="cas=%d other-updates=%s" % (len(sub), [(c.name, c.line) for c in upd]), where=where(f), key=rule + "|header-cas")
+    if len(sub) == 1:
+        c = sub[0]
+        exp = strip(c.fn.flow.arg_tree(c, 1))
+        new = strip(c.fn.flow.arg_tree(c, 2))
+        ok2 = bool(tree_calls(exp, name="atomic_load")) and bool(tree_calls(exp, name="set_bits_to_u8")) and "arg3" in show(exp) and "arg4" in show(new) and bool(tree_calls(new, name="set_bits_to_u8"))
+        ctx.judge(ok2, rule, "expected byte = loaded byte with the OLD field value; new byte = that with the NEW field value", expected="cas(set_bits(load, old), set_bits(set_bits(load, old), new))",
+                  found="expected=%s" % show(exp)[:140], where=where(c.fn, c.line), key=rule + "|header-cas-operands")
+        rt = [show(strip(t)) for r, t in f.flow.return_trees()]
+        ctx.judge(any("Address::compare_exchange" in r for r in rt), rule, "the caller sees the outcome of that compare-exchange", expected="Ok/Err derived from the byte CAS", found=str(rt)[:200], where=where(f),
+                  key=rule + "|header-cas-result")
+
+
 def fns_under(F, prefix):
     return [f for q, f in sorted(F.fns.items()) if q.startswith(prefix) and "::tests::" not in q]
 
@@ -71,7 +94,8 @@ def run(ctx, F):
                         nw += 1
                         ctx.judge(bool(tree_calls(t, name="set_bits_to_u8")) and any(s == ("arg", 2) for s in walk(t)), "C23.extract-before-convert", "%s: RMW closure rebuilds the byte from the one it was given" % short(f.q),
                                   expected="Some(set_bits_to_u8(old_byte, ..))", found=show(t)[:120], where=where(f), key="C23.extract-before-convert|rmw|%s" % f.q)
-    ctx.floor("C23.extract-before-convert", nw, 4, "byte write-back sites")
+    ctx.judge(nw >= 1, "C23.extract-before-convert", "byte write-back sites found", expected=">= 1", found=str(nw), key="C23.extract-before-convert|writeback-count")
+    check_header_cas(ctx, F, "C23.cas-atomic")
     fu = F.fn(P + "fetch_update")
     inner = [cl for cl in closures_of(F, fu) if tree_calls(ret_table(cl)[0][1], name="set_bits_to_u8")] if closures_of(F, fu) else []
     ctx.judge(bool(inner), "C23.extract-before-convert", "fetch_update writes back through set_bits_to_u8", expected="new byte = set_bits_to_u8(raw_byte, truncated(new))", found=str(len(inner)), where=where(fu),
